@@ -159,6 +159,9 @@ RESOLVER = {
                        ("convert", 500, 5000)]},
     "C07": {"inv": ["C07"], "reps": (25, 100), "family": "C07", "random": [("general", 300, 3000)], "model": (200, 2000)},
     "C08": {"inv": ["C08", "C01", "C04"], "minv": ["C08"], "reps": (3, 6), "family": "C08", "random": [("redef", 3000, 40000)]},
+    "C10": {"inv": ["C10", "C01", "C02", "C04", "C06"], "minv": ["C10"], "reps": (4, 8), "family": "none",
+            "random": [("convcall", 3500, 35000), ("convert", 800, 8000)], "model": (600, 6000)},
+    "C16": {"inv": ["C16", "C03"], "minv": ["C16"], "reps": (6, 12), "family": "C16", "random": [("wild", 800, 8000), ("general", 500, 5000)], "model": (300, 3000)},
     "C13": {"inv": ["C13"], "reps": (2, 4), "family": "C13",
             "random": [("general", 2500, 25000), ("nosub", 1500, 15000), ("multi", 1000, 10000)]},
 }
@@ -166,7 +169,7 @@ RESOLVER = {
 
 def eligible_for_model(s):
     """Scenario features the Resolver model does not cover (they are still judged on real traces)."""
-    return not s.get("gens") and not s.get("bad") and not any(c.get("nilOut") for c in s["convs"])
+    return not s.get("gens") and not any(c.get("nilOut") for c in s["convs"])
 
 
 def canon(kind, log, inputs, valtok):
